@@ -862,6 +862,7 @@ class BeaconConfig:
             bconfig = cls(grconfig.unmasked_beacon_config)
             bconfig.guardrails = grconfig
             bconfig.xorkey = grconfig.beacon_xor_key
+            bconfig.xorencoded = fxor is not fobj
             bconfig.pe_compile_stamp, bconfig.pe_export_stamp = pe.find_compile_stamps(fxor)
             bconfig.architecture = pe.find_architecture(fxor)
             return bconfig
